@@ -108,6 +108,16 @@ func (m *Machine) recordObl(st *State, fr *Frame, kind, detail string, goal *Ter
 		name += "@" + relName(fr.fn)
 	}
 	o := &Obligation{Func: fname, Name: fname + "#" + name, Kind: kind, Tags: tags, Desc: desc, Goal: goal, ctx: m.ctx, Inputs: m.inputs}
+	if len(st.reads) > 0 {
+		// bytes delivered by the reader on this path (for replay)
+		o.Inputs = append([]namedTerm{}, m.inputs...)
+		for j, r := range st.reads {
+			o.Inputs = append(o.Inputs, namedTerm{fmt.Sprintf("$stream[%d].len", j), r.n})
+			for i := 0; i < 8; i++ {
+				o.Inputs = append(o.Inputs, namedTerm{fmt.Sprintf("$stream[%d][%d]", j, i), m.ctx.Select(r.k, m.idxAdd(r.off, m.ts.IdxConst(int64(i))))})
+			}
+		}
+	}
 	o.PC = append([]*Term{}, st.pc...)
 	if trivial {
 		o.Status = "unsat"
